@@ -163,8 +163,8 @@ PROP = Prop(
           "reload; threshold: StreamThreshold with threshold 1..8 on the same geometries, interleaved add / remove (legitimate amounts) / clear / reload. "
           "Non-trivial = more distinct keys than table slots or an eviction (heavy); a key at/above the threshold or a drop below it (threshold). Distinct by hash of (parameters, operations)."),
     workloads=[
-        Workload("heavy", wl_heavy, quick=1200, thorough=80000),
-        Workload("threshold", wl_threshold, quick=1500, thorough=100000),
+        Workload("heavy", wl_heavy, quick=1200, thorough=400000),
+        Workload("threshold", wl_threshold, quick=1500, thorough=500000),
     ],
     assumptions=["ties at the smallest tracked value may go either way", "the model records the values RETURNED by add/remove, as the statement says",
                  "tracking tables are not part of the export format: after a reload the model starts empty"],
